@@ -964,7 +964,7 @@ def run_floor_step(tier, log, seed):
 
 
 # ------------------------------------------------------------------------------------------------ generic path search
-def path_search(fn, duo, delta, edge_delta, tag, violation, want=()):
+def path_search(fn, duo, delta, edge_delta, tag, violation, want=(), edge_tag=None):
     """Encode all entry->return paths of an acyclic CFG with an integer cell `c` (sum of block/edge deltas, symbolic terms allowed)
     and a tag cell `k` (last non-None tag on the path). `violation(cout_term, kout_term, block)` gives the Bool to satisfy at a return."""
     blocks = normal_blocks(fn)
@@ -1001,7 +1001,8 @@ def path_search(fn, duo, delta, edge_delta, tag, violation, want=()):
             asserts.append(f"(=> on_{b} {one(o)})")
             asserts.append(f"(=> (not on_{b}) (not (or {' '.join(o)} false)))")
         for e in outs[b]:
-            asserts.append(f"(=> {evar[e]} (and on_{e[2]} (= cin_{e[2]} (+ {cout(b)} {edge_delta.get(e, '0')})) (= kin_{e[2]} {kout(b)})))")
+            et = (edge_tag or {}).get(e)
+            asserts.append(f"(=> {evar[e]} (and on_{e[2]} (= cin_{e[2]} (+ {cout(b)} {edge_delta.get(e, '0')})) (= kin_{e[2]} {et if et is not None else kout(b)})))")
         if b != "bb0":
             asserts.append(f"(=> on_{b} {one([evar[e] for e in ins[b]])})")
     asserts.append(one([f"on_{b}" for b in returns]))
@@ -1102,4 +1103,94 @@ def run_transfer_conservation(tier, log, seed):
         res.update(status="fail", failures=[dict(id=f"transfer-{key}", reproduced=bool(lost), description=desc + f" | native: {out}")], reason=desc)
     else:
         res.update(status="inconclusive", reason=f"native scenario failed: {st} {out}")
+    return res
+
+
+# ------------------------------------------------------------------------------------------------ C31 (clear on every exit)
+DIRTY_RE = r"transact_preverified_inner|preverify_transaction_inner|PostExecutionHandler::.*::end$|ValidationHandler::.*::(env|initial_tx_gas|tx_against_state)$"
+
+
+def run_clear_on_exit(tier, log, seed):
+    """Every exit of Evm::transact / transact_preverified / preverify_transaction - normal or error - is reached with the journal
+    cleared after the last call that can touch the context."""
+    text = mir.dump("revm", log)
+    funcs = mir.parse_functions(text)
+    duo = smt.Duo(timeout_s=30)
+    failures, inconcl, samples = [], [], []
+    DIRTY, CLEAN = 1, 2
+    for fname in ("transact", "transact_preverified", "preverify_transaction"):
+        cands = [f for n, fl in funcs.items() for f in fl if re.search(r"^evm::<impl at [^>]*>::%s$" % fname, n)]
+        if len(cands) != 1:
+            inconcl.append(f"{fname}: {len(cands)} MIR bodies")
+            continue
+        fn = cands[0]
+        tag, edge_tag = {}, {}
+        clearing_closures = {}
+        for b in fn.blocks.values():
+            c = callee_of(b.term or "")
+            if not c:
+                continue
+            dest, callee, args, raw = c
+            if re.search(r"Evm::clear$", callee) or re.search(r"Evm::<.*>::clear$", raw):
+                tag[b.name] = CLEAN
+            elif re.search(DIRTY_RE, callee) or re.search(DIRTY_RE, raw):
+                tag[b.name] = DIRTY
+            m = re.search(r"inspect_err::<\{closure@([^}]*)\}>", raw)
+            if m:
+                # the closure must clear on every path
+                cl = [f for n, fl in funcs.items() for f in fl if n.startswith(fn.name + "::{closure#") and m.group(1) in f.sig]
+                if len(cl) != 1:
+                    inconcl.append(f"{fname}: closure of inspect_err not found")
+                    continue
+                ctag = {}
+                for cb in cl[0].blocks.values():
+                    cc = callee_of(cb.term or "")
+                    if cc and (re.search(r"Evm::clear$", cc[1]) or re.search(r"Evm::<.*>::clear$", cc[3])):
+                        ctag[cb.name] = CLEAN
+                v, info = path_search(cl[0], duo, {}, {}, ctag, lambda c_, k, b_: f"(not (= {k} {CLEAN}))")
+                clearing_closures[dest.strip()] = (v == "unsat")
+                samples.append(f"{fname}: error hook {cl[0].name.split('::')[-1]} clears on every path: {v}")
+                if v not in ("sat", "unsat"):
+                    inconcl.append(f"{fname} closure: {info}")
+        # the Err edge of the `?` that follows an inspect_err whose closure always clears arrives cleared
+        for b in fn.blocks.values():
+            m = re.match(r"^switchInt\(move (_\d+)\)", b.term or "")
+            if not m:
+                continue
+            disc = [s_ for s_ in b.stmts if re.match(r"^%s = discriminant\((_\d+)\)$" % re.escape(m.group(1)), s_)]
+            if not disc:
+                continue
+            x = re.search(r"discriminant\((_\d+)\)", disc[0]).group(1)
+            dx = defs_of(fn, x)
+            if len(dx) == 1:
+                mm = re.match(r"^<.* as Try>::branch\(move (_\d+)\)", dx[0])
+                if mm and clearing_closures.get(mm.group(1)):
+                    for lab, s_ in mir.successors(b.term):
+                        if lab == "1":
+                            edge_tag[(b.name, lab, s_)] = CLEAN
+        v, info = path_search(fn, duo, {}, {}, tag, lambda c_, k, b_: f"(= {k} {DIRTY})", edge_tag=edge_tag)
+        samples.append(f"{fname}: {info.get('blocks')} blocks, {info.get('returns')} return(s): an exit whose last context-touching call is not followed by clear(): {v}")
+        log(f"[e3] {samples[-1]}")
+        if v == "unsat":
+            continue
+        if v != "sat":
+            inconcl.append(f"{fname}: {info}")
+            continue
+        st, out = native.call("debug", "evm_leak", fname, log=log)
+        desc = f"Evm::{fname}: an exit path is not followed by clear() (path {'>'.join(info['path'][-6:])})"
+        m = re.match(r"journal_accounts_after=(\d+)", out) if st == "ok" else None
+        if m:
+            failures.append(dict(id=f"{fname}-no-clear", reproduced=int(m.group(1)) > 0, description=desc + f" | native: {out}"))
+        else:
+            inconcl.append(f"{fname}: native scenario failed: {st} {out}")
+    q, tm = duo.queries, duo.time
+    duo.close()
+    res = dict(queries=q, solver_s=tm, engine="mir-cfg -> smtlib path search (z3 4.8.12 + cvc5 1.0)", bounds="; ".join(samples),
+               detail="context-touching calls: validation env/initial_tx_gas/tx_against_state, preverify_transaction_inner, transact_preverified_inner, post_execution().end")
+    if inconcl:
+        res.update(status="inconclusive", reason="; ".join(map(str, inconcl))[:500])
+    elif failures:
+        res.update(status="fail", failures=failures, reason=failures[0]["description"][:300])
+    else:
+        res.update(status="pass")
     return res
